@@ -76,6 +76,9 @@ fn id(i: usize) -> Id {
 
 pub struct RepresentativeOfStates;
 impl SubCheck for RepresentativeOfStates {
+    fn fuzzable(&self) -> bool {
+        true
+    }
     type Case = RepCase;
     fn name(&self) -> &'static str {
         "representative_of_actor_states"
@@ -226,6 +229,9 @@ pub struct PlanCase {
 
 pub struct PlansAndStructures;
 impl SubCheck for PlansAndStructures {
+    fn fuzzable(&self) -> bool {
+        true
+    }
     type Case = PlanCase;
     fn name(&self) -> &'static str {
         "plans_reindex_rewrite"
